@@ -16,6 +16,9 @@
 //!   PCUR                    the parser's byte and signature cursor, "cur=<buf_idx>,<sig_idx>" (read off the derived
 //!                           Debug output, the fields are private; "cur=?" when that output has another shape)
 //! Every other line answers "<ok|err|wrongsig|end|panic> [values] <body state | parser state>".
+//! Descriptors: every `h` leaf of a pushed value is a descriptor on a memfd of its own, tagged with its number among the `h`
+//! leaves read since BNEW (live and taken alike); the body state lists the tags of get_fds() ("fds=0,2"; "?" a file no leaf
+//! made, "t" taken) and a decoded descriptor is printed as "h <tag>" (see wirelib::fresh_fd / fd_ident).
 use rbverif::wirelib::{body_state, parser_state, Args, Fd, Path, Sig, Tok, Var, BODY, F64, PARSER};
 use rustbus::message_builder::{MarshalledMessage, MarshalledMessageBody, MessageBodyParser};
 use rustbus::wire::errors::{MarshalError, UnmarshalError};
@@ -369,6 +372,8 @@ fn eval(line: &str) -> String {
             });
             drop_parser();
             set_prefix(Vec::new());
+            // descriptor tags count from 0 in every history
+            rbverif::wirelib::reset_fd_tags();
             format!("ok {}", body_state())
         }
         "BRESET" => {
@@ -500,6 +505,8 @@ fn main() {
     if let Ok((_, hard)) = nix::sys::resource::getrlimit(nix::sys::resource::Resource::RLIMIT_NOFILE) {
         let _ = nix::sys::resource::setrlimit(nix::sys::resource::Resource::RLIMIT_NOFILE, hard, hard);
     }
+    // every `h` leaf gets a file of its own and a tag; body_state lists the tags of get_fds(), decoded descriptors print theirs
+    rbverif::wirelib::FD_DISTINCT.store(true, std::sync::atomic::Ordering::Relaxed);
     rbverif::line_loop(|line| {
         // a panic inside the crate is an outcome of the operation ("panic" + the state it left behind), not the end of the run
         match std::panic::catch_unwind(|| eval(line)) {
